@@ -286,7 +286,10 @@ theorem invS_envStep (s : St) (e : EnvOp) (h : InvS s none) : InvS (envStep s e)
     · exact h
   case peerClose i =>
     split
-    · rename_i c hc; exact invS_updClient s none i c _ h hc rfl
+    · rename_i c hc
+      split
+      · exact invS_updClient s none i c _ h hc rfl
+      · exact h
     · exact h
   case dial i =>
     split
